@@ -225,3 +225,21 @@ func VerifC06ChanClientRead(s *Session, x net.Conn) error {
 	n.KeyCrypt(s.keys)
 	return receive(s, s.parent, n)
 }
+
+// VerifC06PickWaitRekey runs the REAL pickWait (the idle tick of a client in channel mode; the
+// bare Session has sleep 0, so wait() returns at once) until the Packet it puts on the send
+// queue carries key material, and returns that Packet (taken off the queue again); keep-alives
+// are discarded.  nil when max ticks produced no re-key (pickWait does not re-key).
+func VerifC06PickWaitRekey(s *Session, max int) *com.Packet {
+	for i := 0; i < max; i++ {
+		var o uint32
+		s.pickWait(&o)
+		if len(s.send) == 0 {
+			return nil
+		}
+		if n := <-s.send; n != nil && n.Flags&com.FlagCrypt != 0 {
+			return n
+		}
+	}
+	return nil
+}
